@@ -85,9 +85,15 @@ class C18(Prop):
             names = [a["name"] for a in arr["axes"]]
             fills = rng.choice([None, None, [5.0, 7.0], [0.0, 0.0]])
             r = rng.random()
-            op = "interp" if r < 0.75 else ("dataset" if r < 0.9 else "like")
-            yield {"op": op, "array": arr, "axis": rng.choice([["name", names[d]], ["pos", d]]), "labels": new_points(rng, arr["axes"][d]),
-                   "fills": fills, "_d": d}
+            op = "interp" if r < 0.7 else ("dataset" if r < 0.85 else "like")
+            c = {"op": op, "array": arr, "axis": rng.choice([["name", names[d]], ["pos", d]]), "labels": new_points(rng, arr["axes"][d]),
+                 "fills": fills, "_d": d}
+            if op == "like" and rank >= 2 and rng.random() < 0.6:
+                # the template shares a second numeric axis with the array: both are interpolated, one after the other
+                d2 = rng.choice([x for x in range(rank) if x != d])
+                arr["axes"][d2] = dyadic_axis(rng, arr["axes"][d2]["name"], rng.choice([2, 3, 4]), rng.choice(["inc", "dec", "shuf"]), "f")
+                c["op"], c["_d2"], c["labels2"] = "like2", d2, new_points(rng, arr["axes"][d2])
+            yield c
 
     def build(self, c):
         a = core.build_array(c["array"], 0)
@@ -112,6 +118,16 @@ class C18(Prop):
                 warnings.simplefilter("ignore")
                 if c["op"] == "interp":
                     return core.obs_array(a.interp_axis(newv, axis=axk, **kw), toks)
+                if c["op"] == "like2":
+                    n1, n2 = a.dims[c["_d"]], a.dims[c["_d2"]]
+                    new2 = core.label_array(c["labels2"], "f")
+                    tmpl = DimArray(np.zeros((len(newv), len(new2))), axes=[Axis(newv, n1), Axis(new2, n2)])
+                    got = core.obs_array(a.interp_like(tmpl, **kw), toks)
+                    # one axis after the other; the order is not part of the statement (it only matters where both
+                    # coordinates are out of range and the fills differ): either order is accepted
+                    got["_seq"] = core.obs_array(a.interp_axis(newv, axis=n1, **kw).interp_axis(new2, axis=n2, **kw), toks)
+                    got["_seq2"] = core.obs_array(a.interp_axis(new2, axis=n2, **kw).interp_axis(newv, axis=n1, **kw), toks)
+                    return got
                 if c["op"] == "like":
                     name = a.dims[c["_d"]]
                     tmpl = DimArray(np.zeros(len(newv)), axes=[Axis(newv, name)])
@@ -148,6 +164,27 @@ class C18(Prop):
         bad, prop_bad = [], []
         a = self.build(c)
         left, right = (np.nan, np.nan) if c["fills"] is None else c["fills"]
+        if c["op"] == "like2":
+            if "ok" in io:
+                got = dict(io["ok"])
+                def cmp(want):
+                    b = []
+                    for f in ("dims", "shape", "attrs"):
+                        if got[f] != want[f]:
+                            b.append("like2." + f)
+                    if [fl(cv(v)) for v in got["values"]] != [fl(cv(v)) for v in want["values"]]:
+                        b.append("like2.values")
+                    if [(x["name"], x["labels"]) for x in got["axes"]] != [(x["name"], x["labels"]) for x in want["axes"]]:
+                        b.append("like2.axes")
+                    return b
+                b1, b2 = cmp(io["ok"]["_seq"]), cmp(io["ok"]["_seq2"])
+                if b1 and b2:
+                    prop_bad += b1
+            else:
+                prop_bad.append("outcome:" + io["err"])
+            if io.get("operand_modified"):
+                prop_bad.append("operand_modified")
+            return None if not prop_bad else {"kind": "P", "differs": sorted(set(prop_bad)), "msg": io.get("msg")}
         if c["op"] == "dataset":
             if "ok" in io:
                 o = io["ok"]
